@@ -24,8 +24,9 @@ Proof. reflexivity. Qed.
 
 Lemma do_act_execs : forall cfg a st st' l, do_act cfg st a = (st', l) -> execs l = [].
 Proof.
-  intros cfg a st st' l H. destruct a as [k t p tag h body|tag|h]; cbn [do_act] in H.
+  intros cfg a st st' l H. destruct a as [k t p tag h body|tag|h|]; cbn [do_act] in H.
   - destruct (do_sched cfg st k t p tag h body) as [s rc]. inversion H; subst. reflexivity.
+  - inversion H; reflexivity.
   - inversion H; reflexivity.
   - inversion H; reflexivity.
 Qed.
@@ -35,6 +36,8 @@ Proof.
   intros cfg acts. induction acts as [|a r IH]; intros st st' l H; cbn [do_acts] in H.
   - inversion H; reflexivity.
   - destruct (do_act cfg st a) as [s1 l1] eqn:E1.
+    destruct (has_raise l1) eqn:Hr.
+    { inversion H; subst. eapply do_act_execs; exact E1. }
     destruct (do_acts cfg s1 r) as [s2 l2] eqn:E2. inversion H; subst.
     rewrite execs_app, (do_act_execs _ _ _ _ _ E1), (IH _ _ _ E2). reflexivity.
 Qed.
@@ -126,11 +129,12 @@ Section Pres.
 
   Lemma pres_do_act : forall a st st' l, P st -> do_act cfg st a = (st', l) -> P st'.
   Proof.
-    intros a st st' l Hp H. destruct a as [k t p tag h body|tag|h]; cbn [do_act] in H.
+    intros a st st' l Hp H. destruct a as [k t p tag h body|tag|h|]; cbn [do_act] in H.
     - destruct (do_sched cfg st k t p tag h body) as [s rc] eqn:E. inversion H; subst.
       eapply pres_do_sched; eassumption.
     - inversion H; subst. apply P_cancel, Hp.
     - inversion H; subst. apply P_drop, Hp.
+    - inversion H; subst. exact Hp.
   Qed.
 
   Lemma pres_do_acts : forall acts st st' l, P st -> do_acts cfg st acts = (st', l) -> P st'.
@@ -138,6 +142,8 @@ Section Pres.
     induction acts as [|a r IH]; intros st st' l Hp H; cbn [do_acts] in H.
     - inversion H; subst. exact Hp.
     - destruct (do_act cfg st a) as [s1 l1] eqn:E1.
+      destruct (has_raise l1) eqn:Hr.
+      { inversion H; subst. eapply pres_do_act; eassumption. }
       destruct (do_acts cfg s1 r) as [s2 l2] eqn:E2. inversion H; subst.
       eapply IH; [|exact E2]. eapply pres_do_act; eassumption.
   Qed.
@@ -214,6 +220,8 @@ Section Hist.
     - destruct (pop_event (s_events st)) as [[e rest]|] eqn:Ep.
       + destruct (e_time e <=? endt).
         * destruct (exec_event cfg (set_events st rest) e) as [s1 l1] eqn:E1.
+          destruct (has_raise l1) eqn:Hr.
+          { inversion H; subst. eapply I_exec; eassumption. }
           destruct (run_loop cfg n endt s1) as [[s2 l2] ok2] eqn:E2. inversion H; subst.
           rewrite execs_app, app_assoc. eapply IH; [|exact E2]. eapply I_exec; eassumption.
         * inversion H; subst. rewrite execs_nil, app_nil_r. apply I_stop; assumption.
